@@ -279,7 +279,15 @@ def run(repo: Repo, chk: Check):
     chk.judge("R13.e", "compile_pass:SetModuleNames:module.name and the key of the module table are the same alias", same_key and same_obj,
               f"the module {mod_obj} is renamed to {new_name} but stored under the key {key} (value {norm(ks.value)}): 'm.f()' would resolve to a scope that does not exist "
               f"or to another module", None, ws)
-    chk.judge("R13.e", "compile_pass:SetModuleNames:new name = alias if given else the module's own name", new_name in ("alias if alias else name", "alias or name", "name if not alias else alias", "name if alias is None else alias", "alias if alias is not None else name"),
+    # the loop variables over node.names: (module's own name, alias or None) -- whatever they are called
+    nm_, al_ = "name", "alias"
+    for lp_ in ast.walk(sm):
+        if isinstance(lp_, ast.For) and norm(lp_.iter).endswith(".names") and isinstance(lp_.target, ast.Tuple) and len(lp_.target.elts) == 2 \
+                and all(isinstance(e_, ast.Name) for e_ in lp_.target.elts):
+            nm_, al_ = lp_.target.elts[0].id, lp_.target.elts[1].id
+    chk.judge("R13.e", "compile_pass:SetModuleNames:new name = alias if given else the module's own name",
+              new_name in tuple(t_.replace("alias", "\0").replace("name", nm_).replace("\0", al_) for t_ in (
+                  "alias if alias else name", "alias or name", "name if not alias else alias", "name if alias is None else alias", "alias if alias is not None else name")),
               f"the new module name is {new_name}", None, ws)
     # get_scope_name appends the module's name; get_function_name = scope + '.' + name
     gs = u.func("get_scope_name")
